@@ -116,6 +116,20 @@ func runC05(c map[string]interface{}) []Event {
 			e["out2"] = "ok"
 		})
 		return []Event{e}
+	case "hexstr": // an arbitrary (mostly non-hex) string handed to the hex decoder
+		var sb []byte
+		for _, ch := range arr(c["chars"]) {
+			sb = append(sb, byte(num(ch)))
+		}
+		e := Event{"ev": "hexstr", "res": "ok"}
+		e["out"] = safely(func() {
+			if g, err := hex.Decode(string(sb)); err != nil {
+				e["res"] = "err"
+			} else if g == nil {
+				e["res"] = "nil"
+			}
+		})
+		return []Event{e}
 	case "dec":
 		var b []byte
 		if v, ok := c["bytes"]; ok {
